@@ -571,6 +571,26 @@ int __wrap_buffered_socket_writev(void *this_ptr, struct socket_io_vector *io_ve
 	return ret;
 }
 
+/* HTTP front door observability (C13): every call of the real http-parser and every handler lookup */
+#include "http-parser/http_parser.h"
+#include "http_server.h"
+extern size_t __real_http_parser_execute(http_parser *parser, const http_parser_settings *settings, const char *data, size_t len);
+size_t __wrap_http_parser_execute(http_parser *parser, const http_parser_settings *settings, const char *data, size_t len)
+{
+	size_t n = __real_http_parser_execute(parser, settings, data, len);
+	out("HPE %s len=%zu nparsed=%zu upgrade=%d method=%d http=%d.%d errno=%d", hname(last_fd_event), len, n, parser->upgrade ? 1 : 0,
+	    (int)parser->method, (int)parser->http_major, (int)parser->http_minor, (int)parser->http_errno);
+	return n;
+}
+
+extern const struct url_handler *__real_find_url_handler(const struct http_server *server, const char *url, size_t url_length);
+const struct url_handler *__wrap_find_url_handler(const struct http_server *server, const char *url, size_t url_length)
+{
+	const struct url_handler *h = __real_find_url_handler(server, url, url_length);
+	out("URLHANDLER %s found=%d", hname(last_fd_event), h != NULL);
+	return h;
+}
+
 extern int __real_init_peer(struct peer *p, bool is_local_connection, struct eventloop *loop);
 int __wrap_init_peer(struct peer *p, bool is_local_connection, struct eventloop *loop)
 {
